@@ -42,6 +42,7 @@ func runC17(r *Run) {
 	c17Race(r, ws)
 	c17SharedState(r, ws)
 	c17ErrSink(r)
+	c17Imports(r)
 }
 
 // ---------------------------------------------------------------------------------------------
